@@ -421,7 +421,7 @@ def heights_of(scene):
     return np.array(hs, dtype=float)
 
 
-def gen_prms(rng, scene, msa=True, scaling=True, exclusion=True, rich=True):
+def gen_prms(rng, scene, msa=True, scaling=True, exclusion=True, rich=True, extreme=False):
     """An *effective* parameter set in which every leaf keeps its documented meaning."""
     p = {}
     glob = {}
@@ -483,6 +483,31 @@ def gen_prms(rng, scene, msa=True, scaling=True, exclusion=True, rich=True):
                            'min_prob': float(rng.choice([1.0, 0.5])),
                            'delta_mul_gain': float(rng.choice([0.95, 1.0, 0.5])),
                            'rescale_0_to_x': rs}}
+    if extreme:
+        # legal but unusual corners of the documented ranges
+        if r() < 0.4:
+            p['BASE_LVL_LOOKBACK_PERC'] = float(rng.choice([1e-3, 0.5, 99.999, 100.0]))
+        if r() < 0.4:
+            p['BASE_LVL_HEIGHT_PERC'] = float(rng.choice([0.0, 1e-9, 99.9999, 100.0]))
+        if r() < 0.4:
+            p['LOWESS'] = {'frac': float(rng.choice([1e-6, 0.01, 0.02, 0.999999, 1.0])), 'it': int(rng.choice([0, 10]))}
+        if r() < 0.3:
+            p['MAX_HITS_OKTA0'] = int(rng.choice([0, 50, 1000]))
+        if r() < 0.3:
+            p['MAX_HOLES_OKTA8'] = int(rng.choice([0, 50, 1000]))
+        if r() < 0.3 and 'MSA' in p and p['MSA'] is not None:
+            p['MSA_HIT_BUFFER'] = float(rng.choice([0.0, 1e-9, 1e5]))
+        if r() < 0.3:
+            p.setdefault('GROUPING_PRMS', {}).update({'height_scale_range': [float(x) for x in rng.choice([[100, 100], [1e-3, 1e-3], [1, 1e6], [500, 500]])],
+                                                       'height_pad_perc': float(rng.choice([0, 1000])), 'dt_scale': float(rng.choice([1e-3, 180, 1e9]))})
+        if r() < 0.3:
+            p['MIN_SEP_LIMS'] = []
+            p['MIN_SEP_VALS'] = [float(rng.choice([1e-6, 1.0, 1e5]))]
+        if r() < 0.3:
+            g = p.setdefault('LAYERING_PRMS', {}).setdefault('gmm_kwargs', {})
+            g.update({'delta_mul_gain': float(rng.choice([1e-6, 0.999, 1.0, 10.0])), 'min_prob': float(rng.choice([0.0, 1e-9, 1.0])),
+                      'rescale_0_to_x': [None, 1e-3, 1e6][int(rng.integers(3))]})
+            p['LAYERING_PRMS']['min_okta_to_split'] = int(rng.choice([0, 8]))
     return {'call': p, 'glob': glob}
 
 
